@@ -42,7 +42,12 @@ import (
 // instead of the representative ones.
 var c02DeepCommit, c02DeepHtlc, c02DeepUpd bool
 
-func c02Mode(commit, htlc, upd bool) { c02DeepCommit, c02DeepHtlc, c02DeepUpd = commit, htlc, upd }
+// c02AllPairs: every ordered pair of update kinds (instead of kind, kind+1).
+var c02AllPairs bool
+
+func c02Mode(commit, htlc, upd bool) {
+	c02DeepCommit, c02DeepHtlc, c02DeepUpd, c02AllPairs = commit, htlc, upd, false
+}
 
 // ---------------------------------------------------------------------------
 // fake bucket
@@ -459,7 +464,7 @@ func c02Updates(max int) []LogUpdate {
 	var us []LogUpdate
 	kind := 0
 	for i := 0; i < k; i++ {
-		if i == 0 || c02DeepUpd {
+		if i == 0 || c02DeepUpd || c02AllPairs {
 			kind = vChoice("updKind", c02NumKinds)
 		} else {
 			// quick: the second update is of the next kind, so that every
@@ -529,7 +534,9 @@ func c02LogUpdates(max int) {
 	}
 }
 
-func VerifC02LogUpdates()     { c02Mode(false, false, false); c02LogUpdates(2) }
+// all 25 ordered kind pairs in both tiers; thorough adds 0..2 custom records
+// per update
+func VerifC02LogUpdates()     { c02Mode(false, false, false); c02AllPairs = true; c02LogUpdates(2) }
 func VerifC02LogUpdatesDeep() { c02Mode(false, false, true); c02LogUpdates(2) }
 
 // ---------------------------------------------------------------------------
